@@ -2,6 +2,7 @@ SPECIFICATION Spec
 CONSTANT Part = "guess"
 CONSTANT Deviation = "none"
 CONSTANT MaxDepth = 3
+CONSTANT Rebounds = FALSE
 CONSTANT Export = TRUE
 INVARIANT C05_GuessInside
 INVARIANT ExportCase
